@@ -377,6 +377,35 @@ func (p *c12) keyIdentity(x *res, adapter string, ctx *runner.Ctx) {
 					if ds != nil {
 						return
 					}
+					if (len(w)+len(rd))%2 == 0 {
+						// "primed" half of the pairs: the same attribute names and the same key TEXTS were used a moment ago
+						// as STRING keys - on a same-named table of this client (deleted again) and of another client.
+						// How a number key is identified must not depend on what the process has seen before
+						sspec := spec
+						sspec.HashT, sspec.RangeT = "", ""
+						sspec.Indexes = nil
+						str := func(n string) val.Item {
+							o := val.Item{}
+							for k, v := range mk(n) {
+								o[k] = val.Str(v.Str)
+							}
+							return o
+						}
+						other := adapt.New(adapter)
+						cl.Do(adapt.Op{Kind: adapt.OpDeleteTable, Table: spec.Name})
+						for _, c := range []adapt.Client{cl, other} {
+							c.Do(createOp(sspec))
+							for _, n := range []string{w, rd} {
+								c.Do(adapt.Op{Kind: adapt.OpPut, Table: spec.Name, Item: str(n)})
+								c.Do(adapt.Op{Kind: adapt.OpGet, Table: spec.Name, Key: str(n)})
+							}
+						}
+						cl.Do(adapt.Op{Kind: adapt.OpDeleteTable, Table: spec.Name})
+						if o := cl.Do(createOp(spec)); o.Class != adapt.ClsOK {
+							return
+						}
+						x.r.Counters["key_identity_primed_with_string_keys"]++
+					}
 					it := mk(w)
 					it["v"] = val.Str("payload")
 					cl.Do(adapt.Op{Kind: adapt.OpPut, Table: spec.Name, Item: it})
